@@ -1,11 +1,113 @@
 (* C13 — events normalise to UTC milliseconds and survive JSON round trips.
-   Property statements only. *)
-From Coq Require Import ZArith Bool List PrimFloat.
+   Property statements only: each theorem is closed by [exact <lemma>] and followed by
+   Print Assumptions.  Models: Model/PyFloat.v (CPython float conversions, bit-exact),
+   Model/IsoTime.v (isoformat / iso8601 subset), Model/EventModel.v (aw_core/models.py).
+   Proofs: Proofs/PyFloatFinite.v (exhaustive), Proofs/PyFloatSpec.v (Flocq),
+   Proofs/IsoTimeProofs.v, Proofs/EventProofs.v.
+   Instants and durations are integer microseconds; floor_ms t = 1000 * (t / 1000);
+   y2100 = 4102444800 * 10^6; an aware datetime is (UTC instant, utcoffset). *)
+From Coq Require Import ZArith Reals Bool List Ascii.
+From Flocq Require Import IEEE754.BinarySingleNaN IEEE754.PrimFloat.
 From AwVerif Require Import Base.Prelude Model.PyFloat Model.IsoTime Model.EventModel
-  Proofs.PyFloatFinite.
+  Proofs.PyFloatFinite Proofs.PyFloatSpec Proofs.EventProofs.
 Open Scope Z_scope.
+Set Printing Width 100000.
 
+(* int(us / 1000) computed with float division is us // 1000, for every microsecond field
+   (exhaustive kernel evaluation over the 10^6 values; no axiom) *)
 Theorem C13_int_div_1000 : forall us, 0 <= us < 1000000 ->
   bind (fdiv_int_int us 1000) int_of_float = Ok (us / 1000).
 Proof. exact int_div_1000_exact. Qed.
 Print Assumptions C13_int_div_1000.
+
+(* models.py: int(ts.microsecond / 1000) * 1000 *)
+Theorem C13_ms_floor : forall us, 0 <= us < 1000000 ->
+  ms_floor_float us = Ok (us - us mod 1000).
+Proof. exact ms_floor_float_exact. Qed.
+Print Assumptions C13_ms_floor.
+
+(* An aware datetime at UTC instant u with utcoffset off (any whole number of
+   milliseconds: every zone of the tz database, every ISO-8601 offset), 1970..2100: the
+   event holds the instant floored to the millisecond (as a UTC datetime: the model's
+   timestamp is the UTC instant). *)
+Theorem C13_normalise : forall u off, 0 <= u <= y2100 -> off mod 1000 = 0 ->
+  set_timestamp (TsDt u off) = Ok (floor_ms u).
+Proof. exact normalise_dt. Qed.
+Print Assumptions C13_normalise.
+
+(* the same for an ISO-8601 string that iso8601.parse_date reads as (u, off) *)
+Theorem C13_normalise_str : forall s u off, parse_iso s = Ok (u, off) ->
+  0 <= u <= y2100 -> off mod 1000 = 0 ->
+  set_timestamp (TsStr s) = Ok (floor_ms u).
+Proof. exact normalise_str. Qed.
+Print Assumptions C13_normalise_str.
+
+(* whatever the offset, it is the local time that is floored *)
+Theorem C13_normalise_general : forall u off,
+  timestamp_parse (TsDt u off) = Ok (floor_ms (u + off) - off, off).
+Proof. exact timestamp_parse_dt. Qed.
+Print Assumptions C13_normalise_general.
+
+(* ... so with a sub-millisecond utcoffset (accepted by datetime.timezone, used by no
+   zone) the stored instant is not the millisecond floor of the given instant *)
+Theorem C13_normalise_sub_ms_offset_refuted : exists u off,
+  0 <= u <= y2100 /\ Z.abs off <= max_off /\
+  exists t, set_timestamp (TsDt u off) = Ok t /\ t <> floor_ms u.
+Proof.
+  exists 1600000000000999, 1. split; [vm_compute; split; discriminate|].
+  split; [vm_compute; discriminate|]. exists 1600000000000999.
+  split; [exact (proj1 normalise_sub_ms_offset_witness)|]. vm_compute. discriminate.
+Qed.
+Print Assumptions C13_normalise_sub_ms_offset_refuted.
+
+(* durations: a timedelta is kept, an int is that many seconds *)
+Theorem C13_duration_td : forall k, set_duration (DurTd k) = Ok k.
+Proof. exact duration_td. Qed.
+Print Assumptions C13_duration_td.
+
+Theorem C13_duration_int : forall s, Z.abs s <= 86399999913600 ->
+  set_duration (DurInt s) = Ok (s * 1000000).
+Proof. exact duration_int. Qed.
+Print Assumptions C13_duration_int.
+
+(* timedelta(seconds=x) for a float x within 31/64 us of a whole number k of
+   microseconds is exactly k microseconds (no double-rounding surprise) *)
+Theorem C13_duration_float_near : forall x k, is_finite (Prim2B x) = true ->
+  Z.abs k <= 86399999913600000000 ->
+  (Rabs (B2R (Prim2B x) * 1000000 - IZR k) <= 31 / 64)%R ->
+  set_duration (DurFloat x) = Ok k.
+Proof. exact duration_float_near. Qed.
+Print Assumptions C13_duration_float_near.
+
+(* in particular the float nearest to k / 10^6 (what total_seconds() returns) gives k
+   back, for |k| < 2^33 * 10^6 us (272 years; DESIGN asked for 2^51) *)
+Theorem C13_duration_float : forall k, Z.abs k < 2 ^ 33 * 1000000 ->
+  bind (total_seconds_of_us k) (fun f => set_duration (DurFloat f)) = Ok k.
+Proof. exact duration_float_roundtrip. Qed.
+Print Assumptions C13_duration_float.
+
+(* rebuilding an event from the event itself *)
+Theorem C13_rebuild_from_event : forall e, ms_aligned (ts e) -> 0 <= ts e <= y2100 ->
+  rebuild e = Ok e.
+Proof. exact rebuild_id. Qed.
+Print Assumptions C13_rebuild_from_event.
+
+(* the duration bound of the JSON round trip is sharp *)
+Theorem C13_json_roundtrip_unbounded_refuted : exists e,
+  ms_aligned (ts e) /\ 0 <= ts e <= y2100 /\ exists e', json_roundtrip e = Ok e' /\ dur e' <> dur e.
+Proof.
+  exists (mkEvent None 1600000000000000 (2 ^ 33 * 1000000 + 1) 0).
+  split; [reflexivity|]. split; [vm_compute; split; discriminate|].
+  eexists. split; [exact json_roundtrip_huge_duration_witness|]. vm_compute. discriminate.
+Qed.
+Print Assumptions C13_json_roundtrip_unbounded_refuted.
+
+(* Non-vacuity: an event given in zone +05:45 with a microsecond field that is not
+   millisecond aligned and a float duration next to half a microsecond; its JSON form;
+   the round trip. *)
+Example C13_nonvacuous :
+  mk_event (Some 7) (TsDt 1600000000123999 20700000000) (DurFloat example_float) 3
+    = Ok (mkEvent (Some 7) 1600000000123000 1000001 3)
+  /\ json_roundtrip (mkEvent (Some 7) 1600000000123000 1000001 3)
+    = Ok (mkEvent (Some 7) 1600000000123000 1000001 3).
+Proof. split; vm_compute; reflexivity. Qed.
